@@ -4,7 +4,27 @@
 // Comments only; compiled only with the build tag "verif".
 package token
 
+// LongestDirective is the maximum key length of the directives table (the table is read
+// from the source on every run; maxkeylen/allkeys range over its literal keys).
 //@ func LongestDirective
-//@   ensures result >= 0
+//@   ensures result == maxkeylen(directives)
+//@   ensures allkeys(directives, d, len(d) <= result)
 //@   modifies nothing
-//@   loop 0: invariant longest >= 0
+//@   loop 0: invariant longest >= 0 && longest <= maxkeylen(directives)
+//@   loop 0: invariant allkeys(directives, d, visited(d) ==> len(d) <= longest)
+//@   loop 0: invariant longest == 0 || anykey(directives, d, len(d) == longest)
+
+// Contains is the lexicographic range test on (line, column).
+//@ spec lexLE(l1 uint, c1 uint, l2 uint, c2 uint) bool = l1 < l2 || (l1 == l2 && c1 <= c2)
+//@ func (p Position) Contains
+//@   ensures result == (lexLE(p.StartLine, p.StartCol, line, col) && lexLE(line, col, p.EndLine, p.EndCol))
+//@   modifies nothing
+
+//@ func (t *Token) ErrorLine
+//@   ensures result == t.Pos.EndLine + 1
+//@   modifies nothing
+
+// String indexes the name table; every token type produced by the lexer is in range.
+//@ func String
+//@   requires ILLEGAL <= t && t <= DUMP
+//@   modifies nothing
